@@ -67,18 +67,21 @@ def monitor1(ctx, hooks, rng):
     rng.shuffle(visits)
     ac = hooks.ac
     for tag, x, g in visits:
-        hit0, len0 = ac._fi_hit, len(ac._fuseinfos)
-        keys0 = set(ac._fuseinfos)
+        # (cache statistics are read from library internals when they exist; verdicts never
+        # depend on them)
+        _cache = getattr(ac, "_fuseinfos", {})
+        hit0, len0 = getattr(ac, "_fi_hit", 0), len(_cache)
+        keys0 = set(_cache)
         o = ctx.call(lambda: x.fuse(*g))
         ctx.evaluated()
-        if len(ac._fuseinfos) <= len0 and set(ac._fuseinfos) != keys0:
+        if len(_cache) <= len0 and set(_cache) != keys0:
             ctx.count("m1", "evictions")
         wit = {"family_member": tag, "groups": repr(g), "x": describe(x, True), "cache_size": cs}
         if not o.ok:
             ctx.violation(f"fuse-raises-{o.excname}", repr(o.exc), wit)
             continue
         v = judge_fuse(ctx, x, g, o.value, wit, f"[{tag}] fuse{g} cache={cs}")
-        if v is not False and ac._fi_hit > hit0:
+        if v is not False and (getattr(ac, "_fi_hit", 0) > hit0 or not hasattr(ac, "_fi_hit")):
             ctx.nontrivial(("m1", tag, g, cs, ms))
             ctx.sample({"monitor": "plan-cache hook", "family_member": tag, "groups": repr(g), "cache_size": cs, "served_from_cache": True, "siblings_in_family": [t for t, _ in fam]}, limit=2)
 
@@ -172,7 +175,9 @@ def monitor2_subprocess(ctx, seed, n, cold):
         rep = json.load(open(out))
         os.remove(out)
         want_size = {"0": 0, "1": 1, None: 8192, "junk": 8192}[msz]
-        if rep["maxsize"] != want_size or rep["maxsectors"] != (1 if msec == "1" else 512):
+        if rep["maxsize"] is None or rep["maxsectors"] is None:
+            ctx.count("hook_unavailable", "cache-globals-in-subprocess")
+        elif rep["maxsize"] != want_size or rep["maxsectors"] != (1 if msec == "1" else 512):
             ctx.violation("env-config-not-honoured", f"MAXSIZE={msz} -> {rep['maxsize']}, MAXSECTORS={msec} -> {rep['maxsectors']}", {"MAXSIZE": msz, "MAXSECTORS": msec})
         for j, (a, b) in enumerate(zip(cold, rep["digests"])):
             ctx.evaluated()
